@@ -360,15 +360,20 @@ func (l *Lin) Pretty() string {
 
 // BFact is a fact of the must-analysis.
 type BFact struct {
-	Kind byte // 'c' comparison L Op R; 'e' equation: atom Lhs == Rhs (substitution); 's' Lhs ∈ Set; 'n' pending: facts Cond hold when error variable Obj is nil
+	Kind byte // 'd' boolean definition (see below); 'c' comparison L Op R; 'e' equation: atom Lhs == Rhs (substitution); 's' Lhs ∈ Set; 'n' pending: facts Cond hold when error variable Obj is nil
 	L, R *BTerm
 	Op   token.Token // LSS LEQ EQL NEQ GEQ GTR
 	RLin *Lin        // 'e' with a mathematical right-hand side (idiom invariants)
 	Set  map[int64]bool
 	Obj  types.Object
 	Cond []*BFact
-	Src  string // where the fact comes from (for reports)
-	key  string
+	// 'd': boolean local Obj was set to a condition; Cond are the facts that
+	// hold when it is true, CondF when it is false; NilT / NilF the error
+	// variables known to be nil then
+	CondF      []*BFact
+	NilT, NilF []types.Object
+	Src        string // where the fact comes from (for reports)
+	key        string
 }
 
 func (f *BFact) Key() string { return f.key }
@@ -395,6 +400,8 @@ func (f *BFact) Pretty() string {
 			ps = append(ps, c.Pretty())
 		}
 		return fmt.Sprintf("%s == nil ⇒ %s", f.Obj.Name(), strings.Join(ps, " ∧ "))
+	case 'd':
+		return fmt.Sprintf("%s holds a condition (%s)", f.Obj.Name(), f.Src)
 	}
 	return "?"
 }
@@ -412,6 +419,9 @@ func (f *BFact) terms(fn func(*BTerm)) {
 		}
 	}
 	for _, c := range f.Cond {
+		c.terms(fn)
+	}
+	for _, c := range f.CondF {
 		c.terms(fn)
 	}
 }
